@@ -37,6 +37,7 @@ GLUE = [
 ]
 
 PROP = {
+    "max_jobs": 8,  # parallel CBMC jobs (memory profile of these harnesses)
     "claim": "each strict constructor that whole-packet slicing is built from accepts exactly the byte strings the "
              "reference decoder (kani/src/refm.rs, written from the wire formats) accepts and returns the reference's "
              "header/payload byte ranges, length source, fragmentation flag and field values; the cursor glue between "
